@@ -41,6 +41,13 @@ def ingressOp (args : List String) : String :=
     match n.toNat?, (ws.splitOn ",").mapM parseWrite with
     | some k, some l => showResult (Ingress.httpHop k l)
     | _, _ => "bad-op"
+  | ["smtphop", n, ws] =>
+    -- StaticSmtpRelay -> SmtpEdge -> Queue whose storage behaves as `ws`: the receiving server accepts every command and answers
+    -- the message data with what the edge chooses from the enqueue results
+    match n.toNat?, (ws.splitOn ",").mapM parseWrite with
+    | some k, some l =>
+      showResult (Relay.attempt {} { rcpts := List.replicate k (.code 250), eod := .code (Edge.smtpSees (Edge.enqueue l)) })
+    | _, _ => "bad-op"
   | "proxyhop" :: rest =>
     -- edge -> ProxyQueue -> SMTP relay -> a next hop scripted as for `relay smtp`; error objects carry 550 / 450
     let (cfg, s) := relaySetup rest
